@@ -75,6 +75,20 @@ Definition fresh_const (c : nat) (b : list node) : bool :=
 
 Definition replace_term (old new : term) (t : term) : term := if term_eqb t old then new else t.
 
+(* indiscernibility of identicals: args' is args with ANY of the occurrences of ta / tb exchanged for the
+   other term (all occurrences at once, one occurrence at a time, and the mirror image b = a of a = b
+   are instances) *)
+Fixpoint ident_args (ta tb : term) (a a' : list term) : bool :=
+  match a, a' with
+  | [], [] => true
+  | x :: r, x' :: r' =>
+      (term_eqb x x' || (term_eqb x ta && term_eqb x' tb) || (term_eqb x tb && term_eqb x' ta)) &&
+      ident_args ta tb r r'
+  | _, _ => false
+  end.
+Definition ident_new (gs : list (list node)) : list term :=
+  match gs with (NS (Pred _ a) _ _ :: _) :: _ => a | _ => [] end.
+
 (* classical identity / existence closures *)
 Definition special_closes (n : node) : bool :=
   match n with
@@ -229,8 +243,8 @@ Section GCheck.
             match nth_error b i, nth_error b j with
             | Some (NS (Pred 0 [ta; tb]) true w), Some (NS (Pred p args) true w') =>
                 Nat.eqb w w' &&
-                (groups_eqb gs [[NS (Pred p (map (replace_term ta tb) args)) true w]] ||
-                 groups_eqb gs [[NS (Pred p (map (replace_term tb ta) args)) true w]]) &&
+                (ident_args ta tb args (ident_new gs) &&
+                 groups_eqb gs [[NS (Pred p (ident_new gs)) true w]]) &&
                 all2 (fun t' g => gcheck t' (b ++ g) tk) ts gs
             | _, _ => false
             end
